@@ -96,7 +96,9 @@ func (c *webClient) Username() string {
 
 func (c *webClient) Init(username string, perms []string) {
 	c.username = username
-	c.permissions = perms
+	// perms may be shared with the group description, the role table
+	// or a token, and we modify it in place
+	c.permissions = slices.Clone(perms)
 }
 
 func (c *webClient) Permissions() []string {
